@@ -31,6 +31,13 @@ def run(ctx):
     for ctxt in ['for %s', 'for a %s', 'a > %s', 'case %s', 'function %s', 'select %s', 'a | %s x', '%s', 'if %s', 'a && %s )', 'f() %s', 'a <<E %s )\nE\n', '( %s', '{ %s; ) }']:
         for tokn in ['{x}>f', '{fd}<g', '{v}>>h', '{_a}>&2', '0>x', '00<x', '7>&-', 'a=1', 'a+=(b)', 'then', 'do', '}', ';;', '&>f', '<<<w', '|&', '!', 'time']:
             inputs.append(ctxt % tokn)
+    # carriage returns are ordinary characters: the error must point into the caller's string, CRs counted
+    crs = []
+    for m in inputs[::7][:400 if quick else 6000]:
+        if '\n' in m and '\r' not in m:
+            crs.append(m.replace('\n', '\r\n')); crs.append(m.replace('\n', '\r\n', 1))
+    crs += ['{ a\r\n b ) }', 'a "b\r\nc', 'a\r\n)', 'a \r\n b; fi', 'if a\r\nthen b', 'a\r\n\r\n( b', 'x=$(a\r\n b', 'a \r )']
+    inputs += crs
     inputs = common.dedup(inputs)
     if ctx.get('replay'):
         inputs = [json.load(open(ctx['replay']))['input']]
